@@ -74,6 +74,7 @@ NMAX = int(os.environ.get('C19_NMAX', '80'))          # fault numbers range over
 K3MAX = int(os.environ.get('C19_K3MAX', '0'))         # thorough tier: a third fault position (set to NMAX)
 ARMED2 = os.environ.get('C19_ARMED2') == '1'          # thorough tier: a second session of the same shape runs with the faults still armed
 FULL = os.environ.get('C19_FULL') == '1'              # thorough tier: fault pairs for every exception class (quick: pairs only for class 0)
+K3FULL = os.environ.get('C19_K3FULL') == '1'          # (not used by any tier: the third position for every mid/exception class)
 MIDS = 8
 
 rec = None
@@ -356,6 +357,7 @@ def file_ro(k1: int, k2: int, k3: int, raises: bool, mid: int, exc: int) -> bool
     pre: 0 <= k1 <= NMAX
     pre: (k2 == 0) or (0 < k1 < k2 <= NMAX)
     pre: (k3 == 0) or (0 < k2 < k3 <= K3MAX)
+    pre: k3 == 0 or K3FULL or (exc == 0 and mid <= 3)
     pre: 0 <= mid < MIDS
     pre: 0 <= exc <= 2
     pre: FULL or exc == 0 or k2 == 0
@@ -370,6 +372,7 @@ def file_opt(k1: int, k2: int, k3: int, raises: bool, mid: int, exc: int) -> boo
     pre: 0 <= k1 <= NMAX
     pre: (k2 == 0) or (0 < k1 < k2 <= NMAX)
     pre: (k3 == 0) or (0 < k2 < k3 <= K3MAX)
+    pre: k3 == 0 or K3FULL or (exc == 0 and mid <= 3)
     pre: 0 <= mid < MIDS
     pre: 0 <= exc <= 2
     pre: FULL or exc == 0 or k2 == 0
@@ -384,6 +387,7 @@ def file_imm(k1: int, k2: int, k3: int, raises: bool, mid: int, exc: int) -> boo
     pre: 0 <= k1 <= NMAX
     pre: (k2 == 0) or (0 < k1 < k2 <= NMAX)
     pre: (k3 == 0) or (0 < k2 < k3 <= K3MAX)
+    pre: k3 == 0 or K3FULL or (exc == 0 and mid <= 3)
     pre: 0 <= mid < MIDS
     pre: 0 <= exc <= 2
     pre: FULL or exc == 0 or k2 == 0
@@ -398,6 +402,7 @@ def file_ser(k1: int, k2: int, k3: int, raises: bool, mid: int, exc: int) -> boo
     pre: 0 <= k1 <= NMAX
     pre: (k2 == 0) or (0 < k1 < k2 <= NMAX)
     pre: (k3 == 0) or (0 < k2 < k3 <= K3MAX)
+    pre: k3 == 0 or K3FULL or (exc == 0 and mid <= 3)
     pre: 0 <= mid < MIDS
     pre: 0 <= exc <= 2
     pre: FULL or exc == 0 or k2 == 0
@@ -412,6 +417,7 @@ def file_ddl(k1: int, k2: int, k3: int, raises: bool, mid: int, exc: int) -> boo
     pre: 0 <= k1 <= NMAX
     pre: (k2 == 0) or (0 < k1 < k2 <= NMAX)
     pre: (k3 == 0) or (0 < k2 < k3 <= K3MAX)
+    pre: k3 == 0 or K3FULL or (exc == 0 and mid <= 3)
     pre: 0 <= mid < MIDS
     pre: 0 <= exc <= 2
     pre: FULL or exc == 0 or k2 == 0
@@ -426,6 +432,7 @@ def mem_ro(k1: int, k2: int, k3: int, raises: bool, mid: int, exc: int) -> bool:
     pre: 0 <= k1 <= NMAX
     pre: (k2 == 0) or (0 < k1 < k2 <= NMAX)
     pre: (k3 == 0) or (0 < k2 < k3 <= K3MAX)
+    pre: k3 == 0 or K3FULL or (exc == 0 and mid <= 3)
     pre: 0 <= mid < MIDS
     pre: 0 <= exc <= 2
     pre: FULL or exc == 0 or k2 == 0
@@ -440,6 +447,7 @@ def mem_opt(k1: int, k2: int, k3: int, raises: bool, mid: int, exc: int) -> bool
     pre: 0 <= k1 <= NMAX
     pre: (k2 == 0) or (0 < k1 < k2 <= NMAX)
     pre: (k3 == 0) or (0 < k2 < k3 <= K3MAX)
+    pre: k3 == 0 or K3FULL or (exc == 0 and mid <= 3)
     pre: 0 <= mid < MIDS
     pre: 0 <= exc <= 2
     pre: FULL or exc == 0 or k2 == 0
@@ -454,6 +462,7 @@ def mem_imm(k1: int, k2: int, k3: int, raises: bool, mid: int, exc: int) -> bool
     pre: 0 <= k1 <= NMAX
     pre: (k2 == 0) or (0 < k1 < k2 <= NMAX)
     pre: (k3 == 0) or (0 < k2 < k3 <= K3MAX)
+    pre: k3 == 0 or K3FULL or (exc == 0 and mid <= 3)
     pre: 0 <= mid < MIDS
     pre: 0 <= exc <= 2
     pre: FULL or exc == 0 or k2 == 0
@@ -468,6 +477,7 @@ def mem_ser(k1: int, k2: int, k3: int, raises: bool, mid: int, exc: int) -> bool
     pre: 0 <= k1 <= NMAX
     pre: (k2 == 0) or (0 < k1 < k2 <= NMAX)
     pre: (k3 == 0) or (0 < k2 < k3 <= K3MAX)
+    pre: k3 == 0 or K3FULL or (exc == 0 and mid <= 3)
     pre: 0 <= mid < MIDS
     pre: 0 <= exc <= 2
     pre: FULL or exc == 0 or k2 == 0
@@ -482,6 +492,7 @@ def mem_ddl(k1: int, k2: int, k3: int, raises: bool, mid: int, exc: int) -> bool
     pre: 0 <= k1 <= NMAX
     pre: (k2 == 0) or (0 < k1 < k2 <= NMAX)
     pre: (k3 == 0) or (0 < k2 < k3 <= K3MAX)
+    pre: k3 == 0 or K3FULL or (exc == 0 and mid <= 3)
     pre: 0 <= mid < MIDS
     pre: 0 <= exc <= 2
     pre: FULL or exc == 0 or k2 == 0
@@ -496,6 +507,7 @@ def pg_ro(k1: int, k2: int, k3: int, raises: bool, mid: int, exc: int) -> bool:
     pre: 0 <= k1 <= NMAX
     pre: (k2 == 0) or (0 < k1 < k2 <= NMAX)
     pre: (k3 == 0) or (0 < k2 < k3 <= K3MAX)
+    pre: k3 == 0 or K3FULL or (exc == 0 and mid <= 3)
     pre: 0 <= mid < MIDS
     pre: 0 <= exc <= 2
     pre: FULL or exc == 0 or k2 == 0
@@ -510,6 +522,7 @@ def pg_opt(k1: int, k2: int, k3: int, raises: bool, mid: int, exc: int) -> bool:
     pre: 0 <= k1 <= NMAX
     pre: (k2 == 0) or (0 < k1 < k2 <= NMAX)
     pre: (k3 == 0) or (0 < k2 < k3 <= K3MAX)
+    pre: k3 == 0 or K3FULL or (exc == 0 and mid <= 3)
     pre: 0 <= mid < MIDS
     pre: 0 <= exc <= 2
     pre: FULL or exc == 0 or k2 == 0
@@ -524,6 +537,7 @@ def pg_imm(k1: int, k2: int, k3: int, raises: bool, mid: int, exc: int) -> bool:
     pre: 0 <= k1 <= NMAX
     pre: (k2 == 0) or (0 < k1 < k2 <= NMAX)
     pre: (k3 == 0) or (0 < k2 < k3 <= K3MAX)
+    pre: k3 == 0 or K3FULL or (exc == 0 and mid <= 3)
     pre: 0 <= mid < MIDS
     pre: 0 <= exc <= 2
     pre: FULL or exc == 0 or k2 == 0
@@ -538,6 +552,7 @@ def pg_ser(k1: int, k2: int, k3: int, raises: bool, mid: int, exc: int) -> bool:
     pre: 0 <= k1 <= NMAX
     pre: (k2 == 0) or (0 < k1 < k2 <= NMAX)
     pre: (k3 == 0) or (0 < k2 < k3 <= K3MAX)
+    pre: k3 == 0 or K3FULL or (exc == 0 and mid <= 3)
     pre: 0 <= mid < MIDS
     pre: 0 <= exc <= 2
     pre: FULL or exc == 0 or k2 == 0
@@ -552,6 +567,7 @@ def pg_ddl(k1: int, k2: int, k3: int, raises: bool, mid: int, exc: int) -> bool:
     pre: 0 <= k1 <= NMAX
     pre: (k2 == 0) or (0 < k1 < k2 <= NMAX)
     pre: (k3 == 0) or (0 < k2 < k3 <= K3MAX)
+    pre: k3 == 0 or K3FULL or (exc == 0 and mid <= 3)
     pre: 0 <= mid < MIDS
     pre: 0 <= exc <= 2
     pre: FULL or exc == 0 or k2 == 0
@@ -566,6 +582,7 @@ def my_ro(k1: int, k2: int, k3: int, raises: bool, mid: int, exc: int) -> bool:
     pre: 0 <= k1 <= NMAX
     pre: (k2 == 0) or (0 < k1 < k2 <= NMAX)
     pre: (k3 == 0) or (0 < k2 < k3 <= K3MAX)
+    pre: k3 == 0 or K3FULL or (exc == 0 and mid <= 3)
     pre: 0 <= mid < MIDS
     pre: 0 <= exc <= 2
     pre: FULL or exc == 0 or k2 == 0
@@ -580,6 +597,7 @@ def my_opt(k1: int, k2: int, k3: int, raises: bool, mid: int, exc: int) -> bool:
     pre: 0 <= k1 <= NMAX
     pre: (k2 == 0) or (0 < k1 < k2 <= NMAX)
     pre: (k3 == 0) or (0 < k2 < k3 <= K3MAX)
+    pre: k3 == 0 or K3FULL or (exc == 0 and mid <= 3)
     pre: 0 <= mid < MIDS
     pre: 0 <= exc <= 2
     pre: FULL or exc == 0 or k2 == 0
@@ -594,6 +612,7 @@ def my_imm(k1: int, k2: int, k3: int, raises: bool, mid: int, exc: int) -> bool:
     pre: 0 <= k1 <= NMAX
     pre: (k2 == 0) or (0 < k1 < k2 <= NMAX)
     pre: (k3 == 0) or (0 < k2 < k3 <= K3MAX)
+    pre: k3 == 0 or K3FULL or (exc == 0 and mid <= 3)
     pre: 0 <= mid < MIDS
     pre: 0 <= exc <= 2
     pre: FULL or exc == 0 or k2 == 0
@@ -608,6 +627,7 @@ def my_ser(k1: int, k2: int, k3: int, raises: bool, mid: int, exc: int) -> bool:
     pre: 0 <= k1 <= NMAX
     pre: (k2 == 0) or (0 < k1 < k2 <= NMAX)
     pre: (k3 == 0) or (0 < k2 < k3 <= K3MAX)
+    pre: k3 == 0 or K3FULL or (exc == 0 and mid <= 3)
     pre: 0 <= mid < MIDS
     pre: 0 <= exc <= 2
     pre: FULL or exc == 0 or k2 == 0
@@ -622,6 +642,7 @@ def my_ddl(k1: int, k2: int, k3: int, raises: bool, mid: int, exc: int) -> bool:
     pre: 0 <= k1 <= NMAX
     pre: (k2 == 0) or (0 < k1 < k2 <= NMAX)
     pre: (k3 == 0) or (0 < k2 < k3 <= K3MAX)
+    pre: k3 == 0 or K3FULL or (exc == 0 and mid <= 3)
     pre: 0 <= mid < MIDS
     pre: 0 <= exc <= 2
     pre: FULL or exc == 0 or k2 == 0
